@@ -65,7 +65,9 @@ class Wavefunction:
             )
 
         try:
-            self._amplitude_vector = np.asarray(amplitude_vector, dtype=complex)
+            # Own copy: the object validates every change of its amplitudes, so its
+            # storage must not be shared with the caller's array or another wavefunction.
+            self._amplitude_vector = np.array(amplitude_vector, dtype=complex)
         except TypeError:
             self._amplitude_vector = Matrix(amplitude_vector)
 
